@@ -72,6 +72,40 @@ Section Vec.
       nth k (vec_initiate Ops wp wv pts) (g_initiate Ops PF []) = g_initiate Ops PF (nth k pts []).
   Proof. intros. unfold vec_initiate. apply map_nth. Qed.
 
+  (* vec_distance_pointwise: the distance of the vector filter is, element by element, the distance of the point
+     filter on that element's OWN state (its own projected covariance), whatever the other elements are *)
+  Theorem vec_distance_pointwise_lemma : forall (sqrtT : T Ops -> T Ops) sts pts k d dz,
+      length pts = length sts -> (k < length sts)%nat ->
+      length (vec_distance Ops sqrtT wp wv sts pts) = length sts /\
+      nth k (vec_distance Ops sqrtT wp wv sts pts) dz = g_distance Ops PF sqrtT (nth k sts d) (nth k pts []).
+  Proof.
+    intros sqrtT sts pts k d dz Hl Hk. unfold vec_distance. split.
+    - rewrite map_length, combine_length, Hl. apply Nat.min_id.
+    - rewrite nth_indep with (d' := (fun sp => g_distance Ops PF sqrtT (fst sp) (snd sp)) (d, []))
+        by (rewrite map_length, combine_length, Hl, Nat.min_id; exact Hk).
+      rewrite (map_nth (fun sp => g_distance Ops PF sqrtT (fst sp) (snd sp))).
+      rewrite combine_nth by (symmetry; exact Hl). reflexivity.
+  Qed.
+
+  Theorem vec_distance_diag_pointwise_lemma : forall sts pts k d dz,
+      length pts = length sts -> (k < length sts)%nat ->
+      nth k (vec_distance_diag Ops wp wv sts pts) dz = g_distance_diag Ops PF (nth k sts d) (nth k pts []).
+  Proof.
+    intros sts pts k d dz Hl Hk. unfold vec_distance_diag.
+    rewrite nth_indep with (d' := (fun sp => g_distance_diag Ops PF (fst sp) (snd sp)) (d, []))
+      by (rewrite map_length, combine_length, Hl, Nat.min_id; exact Hk).
+    rewrite (map_nth (fun sp => g_distance_diag Ops PF (fst sp) (snd sp))).
+    rewrite combine_nth by (symmetry; exact Hl). reflexivity.
+  Qed.
+
+  Theorem vec_cost_pointwise_lemma : forall ds inverted k dz, (k < length ds)%nat ->
+      nth k (vec_calculate_cost Ops ds inverted) dz = point_calculate_cost Ops (nth k ds dz) inverted.
+  Proof.
+    intros ds inverted k dz Hk. unfold vec_calculate_cost.
+    rewrite nth_indep with (d' := (fun d => point_calculate_cost Ops d inverted) dz) by (rewrite map_length; exact Hk).
+    apply (map_nth (fun d => point_calculate_cost Ops d inverted)).
+  Qed.
+
   (* ---- re-indexing (p lists, for every output position, the input position it is taken from) ---- *)
   Definition reindex {A : Type} (d : A) (p : list nat) (l : list A) : list A := map (fun i => nth i l d) p.
 
